@@ -9,7 +9,7 @@ from typing import Any, Dict, Iterable, List, Optional, Tuple
 
 from icv import tlc
 from icv.render import render, release
-from icv.sched import SingleSched, ThreadSched, AsyncSched
+from icv.sched import SingleSched, ThreadSched, AsyncSched, RealAsyncSched
 
 SWITCH_NAMES = ["SwReentryDiscards", "SwHoldDuringBody", "SwInitNested", "SwShareSet",
                 "SwFutureNotAwaited"]
@@ -19,7 +19,7 @@ AS_IS = {name: False for name in SWITCH_NAMES}
 ALL_OFF = {name: False for name in SWITCH_NAMES}
 
 CALL_INVARIANTS = ["PreGate", "PreBlock", "PostGate", "PostBlock", "ExcPass", "CaptureWindow", "OldIsCaptured",
-                   "MarksMatchFrames", "SkipExactly", "Bounded", "Rearmed"]
+                   "MarksMatchFrames", "SkipExactly", "Bounded", "Rearmed", "VerdictIndependent"]
 
 
 def load_icontract() -> Any:
@@ -50,8 +50,12 @@ def cfg_text(spec: str, switches: Dict[str, bool], async_sched: bool, invariants
 
 def model_check(progs: List[dict], switches: Dict[str, bool], async_sched: bool = False,
                 invariants: Optional[List[str]] = None, emit_logs: bool = True, workers: int = 16,
-                view_no_log: bool = False, timeout: int = 3600) -> Tuple[tlc.TlcResult, Dict[int, list]]:
-    """Explore every behaviour of every program of the family; return TLC's result and the expected logs."""
+                view_no_log: bool = False, timeout: int = 3600, simulate: int = 0, seed: int = 0,
+                depth: int = 400) -> Tuple[tlc.TlcResult, Dict[int, list]]:
+    """Explore every behaviour of every program of the family; return TLC's result and the expected logs.
+
+    simulate = N: random behaviours instead (TLC -simulate), N per program on average.
+    """
     wd = tlc.scratch_dir("icv-mc-")
     try:
         pfile = os.path.join(wd, "progs.ndjson")
@@ -62,9 +66,15 @@ def model_check(progs: List[dict], switches: Dict[str, bool], async_sched: bool 
         if emit_logs:
             invs.append("PrintDone")
         extra = "CONSTRAINT DepthOK"
+        if view_no_log:
+            extra += "\nVIEW NoLogView"
         cfg = cfg_text("Spec", switches, async_sched, invs, extra=extra)
-        res = tlc.run_tlc("MC_Gen", cfg, wd, workers=workers, env={"PROGS": pfile}, timeout=timeout)
-        logs = {}  # type: Dict[int, list]
+        sim = None
+        if simulate:
+            sim = "num={}".format(simulate * len(progs))
+        res = tlc.run_tlc("MC_Gen", cfg, wd, workers=workers if not simulate else 4, env={"PROGS": pfile},
+                          timeout=timeout, simulate=sim, seed=seed if simulate else None,
+                          extra_args=["-depth", str(depth)] if simulate else None)
         many = {}  # type: Dict[int, List[list]]
         for pr in res.prints:
             if isinstance(pr, dict) and "pid" in pr and "log" in pr:
@@ -78,6 +88,18 @@ def compact(ev: dict) -> list:
     ip = ev["ip"]
     return [ev["e"], ev["t"], ev["id"], ev["o"], ev["a"], ev["v"], ev["cls"], list(ev["old"]), ev["res"],
             [-1] if ip == "n/a" else sorted(ip)]
+
+
+def same_log(exp: List[list], act: List[list]) -> bool:
+    """Equality of an expected and a recorded log; a recorded view [-1] (not available) matches anything."""
+    if len(exp) != len(act):
+        return False
+    for a, b in zip(exp, act):
+        if a[:9] != b[:9]:
+            return False
+        if b[9] != [-1] and a[9] != b[9]:
+            return False
+    return True
 
 
 def norm_expected(ev: list) -> list:
@@ -111,8 +133,10 @@ def run_impl(prog: dict, ic: Any, schedule: Optional[List[int]] = None, mode: st
 
             if mode == "thread":
                 ThreadSched(rt, choose).run()
-            else:
+            elif mode == "async-emulated":
                 AsyncSched(rt, choose).run()
+            else:
+                RealAsyncSched(rt, choose).run()
         rt.finalize_log()
         return [compact(ev) for ev in rt.log], rt
     finally:
